@@ -77,6 +77,7 @@ extern struct ktimerfd ktimerfds[KMAXOBJ];
 extern struct kepoll kepolls[KMAXOBJ];
 
 /* ---- clock ---- */
+extern struct ktime k_last_wait_return;	/* kernel time when the last wait returned (also on EINTR) */
 extern struct ktime k_now;		/* model's current time (lower bound for the next reading) */
 extern int k_clock_symbolic;		/* 1: readings are fresh unknowns >= k_now; 0: concrete */
 extern int k_clock_reads;
